@@ -91,6 +91,27 @@ def p2r_overlapping(k, strand):
     return fn
 
 
+def p2r_derived(k, strand, how):
+    """the same claim on a location that is the RESULT of another operation (optimize_blocks keeps overlapping blocks but rebuilds the object when it
+    drops an empty block or merges an adjacent pair; a whole-length sub-interval): derived objects must answer like freshly built ones"""
+
+    def fn(**kw):
+        bl, loc = _mk(k, strand, kw, True)
+        p = kw["p"]
+        d = loc.optimize_blocks() if how == "optimize" else loc.relative_interval_to_parent_location(0, total_len(bl), Strand.PLUS)
+        if d is EmptyLocation():
+            return total_len(bl) == 0
+        sb = [(b.start, b.end) for b in d.blocks]
+        inside = member(p, bl)
+        try:
+            got = d.parent_to_relative_pos(p)
+        except InvalidPositionException:
+            return NOT(inside)
+        return AND(inside, got >= 0, got < total_len(sb), walk_pos(sb, d.strand, got) == p, d.relative_to_parent_pos(got) == p, total_len(sb) == total_len(bl))
+
+    return fn
+
+
 # ------------------------------------------------------------------ 3. relative sub-interval -> parent location
 def sub(k, strand, rel_strand, force_compound=False):
     def fn(**kw):
@@ -447,9 +468,9 @@ def obligations(tier):
                                    desc="signed-gap 2-block layouts: the i-th base of the converted sub-interval equals the point-wise map's "
                                         "(order claim; overlapping layouts are known finding F12)",
                                    bounds="k=2 blocks with signed gaps, unbounded ints", examples=[dict(s0=5, l0=6, l1=4, g1=2, a=1, b=9, i=3, p=4)]))
-    if tier == "thorough":
+    if True:
         for strand in (PLUS, MINUS):
-            for k in (2, 3):
+            for k in ((3,) if tier == "quick" else (2, 3)):
                 params = dict(layout_params(k))
                 params["p"] = int
 
@@ -466,9 +487,18 @@ def obligations(tier):
                             return False
                     return True
 
-                out.append(Obl("p2r_overlapping_k%d_%s" % (k, sname(strand)), p2r_overlapping(k, strand), params, pre,
+                if tier == "thorough":
+                    out.append(Obl("p2r_overlapping_k%d_%s" % (k, sname(strand)), p2r_overlapping(k, strand), params, pre,
                                budget=400, cost=30,
                                desc="overlapping/nested blocks: parent_to_relative_pos returns an index whose base is p; uncovered p refused",
                                bounds="k=%d blocks with signed gaps (overlap, nesting, any order), unbounded ints" % k,
                                examples=[dict(s0=5, l0=6, l1=4, g1=-3, p=9) if k == 2 else dict(s0=5, l0=6, l1=4, l2=3, g1=-3, g2=-2, p=9)]))
+                if k == 3:
+                    for how in (("optimize",) if tier == "quick" else ("optimize", "sub")):
+                        out.append(Obl("p2r_derived_%s_k%d_%s" % (how, k, sname(strand)), p2r_derived(k, strand, how), params, pre, budget=600, cost=40,
+                                       desc="point maps of a DERIVED location (result of %s on an overlapping/nested layout with empty or adjacent blocks): "
+                                            "parent_to_relative_pos returns an index whose base is p and is inverted by relative_to_parent_pos; uncovered p refused" % (
+                                                "optimize_blocks()" if how == "optimize" else "relative_interval_to_parent_location(0, len)"),
+                                       bounds="k=3 blocks with signed gaps and lengths >= 0, unbounded ints",
+                                       examples=[dict(s0=0, l0=30, l1=3, l2=0, g1=-18, g2=5, p=20), dict(s0=5, l0=6, l1=4, l2=3, g1=-3, g2=0, p=9)]))
     return out
